@@ -26,7 +26,8 @@ class CHECK(Check):
             "text back, and writes what was read. Half of the lines are configured through random setter sequences "
             "(fields, values, delimiter, storage) and must behave as the constructor-built line. Plus an exhaustive "
             "grid of float fields (size<=6, dd<=3) x a boundary value grid. Value lists that do not fit (model's fits) "
-            "are counted and skipped. non-trivial = at least one non-missing float, date or multi-field; distinct = hash")
+            "are counted and skipped. non-trivial = at least one non-missing float, date or multi-field; distinct = hash"
+            " Later additions: an E-notation edge stream (subnormals, +-400 ulps around every power of ten, 0-17 digits, top of the range); 1-3 earlier rows written/read through the same Line (also read in the last declared date format); half of the value lists handed over as numpy scalars / integral floats / bool / pandas Timestamp / pd.NA; ambiguous date-format lists.")
 
     # a case: {fields, values, setters: None | [...]}
     def gen(self, tier, rng):
